@@ -31,6 +31,8 @@ type c06Case struct {
 	// bytesfield
 	Field string `json:"field,omitempty"`
 	Len   int    `json:"len,omitempty"`
+	// merged: profile entries (index*4 + 2*override + optional) and certificate entries into c06MergeAlphabet
+	Prof []int `json:"prof,omitempty"`
 }
 
 var c06BodyLens = []int{1, 2, 3, 127, 128, 767, 768, 769, 1024, 65536}
@@ -126,6 +128,23 @@ func c06Enumerate(tier string, yield func(any)) {
 			yield(&c06Case{Kind: "list", List: []int{a, b}})
 		}
 	}
+	// the effective list under a profile: profile lists <=2 x certificate lists <=3 over repeated types
+	{
+		na := len(c06MergeAlphabet())
+		var certLists [][]int
+		lists(na, 3, func(l []int) { certLists = append(certLists, append([]int{}, l...)) })
+		lists(na*4, 2, func(pl []int) {
+			if len(pl) == 0 {
+				return
+			}
+			for _, cl := range certLists {
+				if tier != "thorough" && len(pl) == 2 && len(cl) == 3 && (pl[0]+pl[1]+cl[0]+cl[1]+cl[2])%4 != 0 {
+					continue
+				}
+				yield(&c06Case{Kind: "merged", Prof: append([]int{}, pl...), List: cl})
+			}
+		})
+	}
 	// rotations of a 12-entry list: each kind once plus one repeat
 	for r := 0; r < 12; r++ {
 		yield(&c06Case{Kind: "rot", Rot: r})
@@ -177,11 +196,65 @@ func c06Exec(x *engine.Ctx, cc any) {
 		base = append(base, rep)
 		l := append(append([]refcfg.Ext{}, base[c.Rot:]...), base[:c.Rot]...)
 		c06Run(x, l, fmt.Sprintf("rot %d", c.Rot))
+	case "merged":
+		c06Merged(x, c)
 	case "sweep":
 		c06Sweep(x, c)
 	case "bytesfield":
 		c06BytesField(x, c)
 	}
+}
+
+// c06MergeAlphabet: few kinds, repeated types, different criticality and raw/content forms
+func c06MergeAlphabet() []refcfg.Ext {
+	t := true
+	return []refcfg.Ext{
+		{Kind: refcfg.KSAN, SAN: &[]refcfg.GeneralName{{Type: "dns", Name: "a1.example"}}},
+		{Kind: refcfg.KSAN, Critical: &t, Raw: refcfg.Bin([]byte{0x30, 0x03, 0x82, 0x01, 0x78})},
+		{Kind: refcfg.KEKU, EKU: refcfg.Strs("clientAuth")},
+		{Kind: refcfg.KCustom, CustomOID: "2.5.29.17", Critical: &t, Raw: refcfg.Bin([]byte{4, 5, 6})}, // custom extension with the SAN OID
+	}
+}
+
+func c06Merged(x *engine.Ctx, c *c06Case) {
+	alpha := c06MergeAlphabet()
+	prof := &refcfg.ProfileCfg{Path: "prof.yaml", Name: "p"}
+	for _, pe := range c.Prof {
+		e := alpha[pe/4]
+		if pe&2 != 0 {
+			e.Override = refcfg.B(true)
+		}
+		if pe&1 != 0 {
+			e.Optional = refcfg.B(true)
+		}
+		prof.Exts = append(prof.Exts, e)
+	}
+	cfg := &refcfg.CertCfg{Path: "ent.yaml", Subject: "CN=merged", KeyAlg: "P-224", Profile: "p"}
+	for _, ce := range c.List {
+		cfg.Exts = append(cfg.Exts, alpha[ce])
+	}
+	d := &Dir{Certs: []*refcfg.CertCfg{cfg}, Profiles: []*refcfg.ProfileCfg{prof}}
+	g := Generate(d, func(w *simfs.World) { w.Put("ent.pem", FixtureKeyPEM("P-224-0")) }, drive.Default)
+	x.Nontrivial(fmt.Sprintf("merged %v %v", c.Prof, c.List))
+	if g.Res.Panic != "" {
+		x.Violation("C06/panic/"+g.Res.PanicSite, g.Res.Panic)
+		return
+	}
+	if !g.Res.OK() {
+		x.Violation("C06/merged/run-failed", fmt.Sprintf("%v\n%s\n%s", g.Res.Err(), prof.YAML(), cfg.YAML()))
+		return
+	}
+	diffs, _, err := g.CompareEntity(d, "ent", "")
+	if err != nil {
+		x.Violation("C06/merged/no-certificate", err.Error())
+		return
+	}
+	for _, df := range diffs {
+		if df.Owner == "C06" {
+			x.Violation(strings.Replace(df.Class, "C06/", "C06/merged/", 1), fmt.Sprintf("%s\nprofile:\n%s\ncertificate:\n%s", df.Detail, prof.YAML(), cfg.YAML()))
+		}
+	}
+	x.Outcome("merged compared")
 }
 
 func c06Run(x *engine.Ctx, exts []refcfg.Ext, key string) {
@@ -323,7 +396,7 @@ func init() {
 	register(&engine.Check{
 		ID:          "C06",
 		Level:       "exploration",
-		Rule:        "11 extension kinds x critical {omitted,false,true} x body {raw !null, raw !empty, raw !binary of 1,2,3,127,128,767,768,769,1024,65536 bytes, simplest content}; every list of length 0 and 2 over kind x critical (33^2); all 12 rotations of a list holding each kind once plus a repeated type; every !binary payload length 1..4096 (quick) / 1..65536 (thorough) at ParseConfig->Builder->Compile level and 1..1100 / 1..4096 through whole certificates; unique ids, signature value, public-key bits, authority key id and addProfessionInfo at the boundary lengths. Oracle: same list, order, OIDs, critical exactly as configured (absent in DER when false/omitted), raw bodies byte-identical. non-trivial = distinct case (payload lengths distinct by construction)",
+		Rule:        "11 extension kinds x critical {omitted,false,true} x body {raw !null, raw !empty, raw !binary of 1,2,3,127,128,767,768,769,1024,65536 bytes, simplest content}; every list of length 0 and 2 over kind x critical (33^2); all 12 rotations of a list holding each kind once plus a repeated type; the effective list under a profile: every profile list of length 1..2 over 4 entries (two SAN forms, EKU, a custom extension with the SAN OID) x override x optional against every certificate list of length 0..3 over the same entries (quick thins the largest block to a quarter); every !binary payload length 1..4096 (quick) / 1..65536 (thorough) at ParseConfig->Builder->Compile level and 1..1100 / 1..4096 through whole certificates; unique ids, signature value, public-key bits, authority key id and addProfessionInfo at the boundary lengths. Oracle: same list, order, OIDs, critical exactly as configured (absent in DER when false/omitted), raw bodies byte-identical. non-trivial = distinct case (payload lengths distinct by construction)",
 		Bound:       map[string]string{"list length": "0..2 exhaustive, 12 by rotation", "payload length": "every length up to 4096 / 65536"},
 		Assumptions: []string{"payload contents are one deterministic pattern per length", "subjectKeyIdentifier content !binary may or may not be wrapped in an OCTET STRING (documentation and code disagree)"},
 		Budget:      budgets(quickBudget, thoroughBudget),
